@@ -1,6 +1,7 @@
 """C03 - Version strings: accepted language and dpkg-style decomposition."""
 import genlib
 from protocol import Exc
+import probe
 from debian_inspector.version import Version
 
 ID = 'C03'
@@ -28,10 +29,10 @@ ALPHABET = ['0', '1', 'a', 'Z', '.', '+', '-', '~', ':', ' ', '_', '٣', '²']
 
 def observe(op, s):
     try:
-        v = Version.from_string(s)
+        return probe.twice(lambda: Version.from_string(s), lambda v: [v.epoch, v.upstream, v.revision],
+                           lambda v: probe.scramble_attrs(v, epoch=987654321, upstream='zz~scrambled', revision='zz'))
     except Exception as e:
         return Exc(type(e).__name__)
-    return [v.epoch, v.upstream, v.revision]
 
 
 def nontrivial(op, s, obs):
